@@ -175,6 +175,11 @@ class Program:
                         raise AnalysisError(f"cannot parse {rel}: {e}")
                     self.modules[name] = mi
                     n += 1
+        # bring a refactored tree back to the vocabulary of the rules (renamed helpers, new named constants, ...)
+        from .inline import known_functions
+        from .normalize import run as normalize_run
+
+        self.normalised = normalize_run(self.modules, known_functions())
         for mi in self.modules.values():
             self._index(mi)
         # helpers that the rules do not know (introduced by a refactoring) are inlined into their callers
